@@ -92,7 +92,8 @@ def judge_pair(chk, case, rp, rn, stream):
             rp[0], rp[3] if rp[0] == "rej" else "", rn[0], rn[3] if rn[0] == "rej" else ""), rec, finding=finding)
         return
     if rp[0] == "acc":
-        if norm(rp[1]) != norm(rn[1]):
+        if norm(rp[1]) != norm(rn[1]) or rp[1] != rn[1]:
+            # (compared as parsed as well as normalised: the pieces a text arrives in are part of the tree)
             chk.oracle_fail("the two spellings parse to different trees",
                             dict(rec, pipe_tree=tplgen.jsonable(rp[1]), nest_tree=tplgen.jsonable(rn[1])), finding=finding)
         elif case.get("expect") is not None and shape(rp[1]) != shape(case["expect"]):
